@@ -369,7 +369,9 @@ def cryptoCmd (kind : String) (kbs : List KeyBlobDef) (d : Dict) (addr : Int) (i
     let key ← strOf ((c.get? "key").getD (.i 0))
     let ctr ← strOf ((c.get? "counter").getD (.i 0))
     if !(isHexStr key) || !(isHexStr ctr) then otherErr    -- bytes.fromhex: ValueError
-    else pure (.loadCrypto kind addr st en key ctr input)
+    else do
+      checkAddr addr   -- CmdLoad.__init__
+      pure (.loadCrypto kind addr st en key ctr input)
 
 /-- `SB21Helper.get_command(name)(dict)`; `kbs` = the configuration's key blobs -/
 def cmdOfDict (env : Env) (kbs : List KeyBlobDef) (name : String) (d : Dict) : R Cmd :=
